@@ -722,7 +722,6 @@ func (fe *FnExec) doReturn(fr *frame, st *State, x *ssa.Return) {
 		ctx := fe.ctxFor(fr, st)
 		ctx.old = fr.entry
 		ctx.bindResults(fr.fn.Signature, rv)
-		fe.bindLets(fr, ctx)
 		g := ctx.evalBool(en.X)
 		fe.oblige(fr, fmt.Sprintf("post:%s@ret%d", en.Label, len(fr.rets)-1), en.Props, st.pc, g, x.Pos(), en.Src)
 	}
